@@ -42,6 +42,17 @@ def strip_array(tag: str) -> str:
     return tag
 
 
+def decimal(text: str) -> int:
+    """
+    ``int()`` of a number written with ASCII digits and an optional leading minus sign,
+    ``int()`` itself also takes blanks, a plus sign, underscores and the digits of other scripts
+    """
+    digits = text[1:] if text.startswith("-") else text
+    if not (digits.isascii() and digits.isdigit()):
+        raise ValueError(f"invalid number: {text!r}")
+    return int(text)
+
+
 def get_array_index(tag: str) -> Tuple[str, int]:
     """
     Return tag name and array index from a 1-dim tag request
@@ -50,7 +61,7 @@ def get_array_index(tag: str) -> Tuple[str, int]:
     """
     if tag.endswith("]") and "[" in tag:
         tag, _tmp = tag.rsplit("[", maxsplit=1)
-        idx = int(_tmp[:-1])
+        idx = decimal(_tmp[:-1])
     else:
         idx = None
 
